@@ -86,13 +86,20 @@ def frames(pressure, cols: dict, so, kr_so, kr_cols: dict, sw: float, as_frame: 
     pa = np.asarray(pressure)
     pvt = {"pressure": pa if pa.dtype.kind == "i" else pa.astype(float),   # an integer column (0, 10, 20, ... as read_csv gives) stays one
            "pseudopressure": np.asarray(pressure, float) * 1.0,
-           "So": np.asarray(so, float)}
+           "So": np.array(so, dtype=float, copy=True)}
     pvt.update({k: np.asarray(v, float) for k, v in cols.items()})
     kr_so = np.asarray(kr_so, float)
     krt = {"So": kr_so, "Sw": np.full(len(kr_so), sw), "Sg": 1 - sw - kr_so}
     krt.update({k: np.asarray(kr_cols[k], float) for k in ("kro", "krg", "krw")})
     if as_frame:
-        return pd.DataFrame(pvt), pd.DataFrame(krt)
+        dfp, dfk = pd.DataFrame(pvt), pd.DataFrame(krt)
+        if len(dfp) % 2 == 0:
+            # a table that was sorted or concatenated without reset_index: rows in order of increasing pressure, labels not 0..n-1
+            dfp.index = np.arange(len(dfp))[::-1].copy()
+        if len(dfk) % 3 == 0:
+            dfk.index = np.roll(np.arange(len(dfk)), 2)
+        return dfp, dfk
+    pvt["pressure"] = np.array(pvt["pressure"], copy=True)   # the caller's own buffer (it may be edited in place later)
     return pvt, krt
 
 
